@@ -75,15 +75,72 @@ def op_real(j):
     raise ValueError(j)
 
 
-def to_real(prog):
-    """fresh ICmd / BranchLabel objects (the passes mutate their input)"""
+class PrivateProtoSubroutine(ProtoSubroutine):
+    """An IR container that never leaks its command list: the `commands` property hands out a
+    snapshot and stores a snapshot.  The assembler only talks to the IR through that property."""
+
+    @property
+    def commands(self):
+        return list(self._commands)
+
+    @commands.setter
+    def commands(self, new_commands):
+        self._commands = list(new_commands)
+
+
+def to_real(prog, share_seed=None, private=False):
+    """The IR objects of a proto program.  `share_seed is None`: every command, operands list and
+    operand is a fresh object.  Otherwise the IR is built the way programs build IR — objects are
+    reused: equal commands may be ONE ICmd object occurring several times, equal operand lists one
+    list, equal ArrayEntry / ArraySlice / Label / Register operands one object (chosen from the
+    seed).  The MEANING of the IR is the same: its values."""
+    mode = share_seed if isinstance(share_seed, str) else None   # "cmd" | "list" | "op": share all of that level
+    rng = random.Random(0 if mode else share_seed) if share_seed is not None else None
+    p = 1.0 if mode else (rng.choice([0.3, 0.7, 1.0]) if rng else 0.0)
+    seen_cmd, seen_ops, seen_op = {}, {}, {}
+
+    def key(j):
+        return repr(sorted(j.items())) if isinstance(j, dict) else repr(j)
+
+    def one_op(o):
+        k = key(o)
+        if rng and mode in (None, "op") and k in seen_op and rng.random() < p:
+            return seen_op[k]
+        x = op_real(o)
+        seen_op[k] = x
+        return x
+
     cmds = []
     for c in prog:
         if "l" in c:
             cmds.append(BranchLabel(c["l"]))
+            continue
+        kc = repr((c["m"], c["a"], [key(o) for o in c["o"]]))
+        if rng and mode in (None, "cmd") and kc in seen_cmd and rng.random() < p:
+            cmds.append(seen_cmd[kc])
+            continue
+        ko = repr([key(o) for o in c["o"]])
+        if rng and mode in (None, "list") and ko in seen_ops and rng.random() < p:
+            ops = seen_ops[ko]
         else:
-            cmds.append(ICmd(instruction=GI[c["m"]], args=list(c["a"]), operands=[op_real(o) for o in c["o"]]))
-    return ProtoSubroutine(commands=cmds, netqasm_version=(0, 0), app_id=0)
+            ops = [one_op(o) for o in c["o"]]
+            seen_ops[ko] = ops
+        cmd = ICmd(instruction=GI[c["m"]], args=list(c["a"]), operands=ops)
+        seen_cmd[kc] = cmd
+        cmds.append(cmd)
+    cls = PrivateProtoSubroutine if private else ProtoSubroutine
+    return cls(commands=cmds, netqasm_version=(0, 0), app_id=0)
+
+
+def sharing_of(proto):
+    """how many objects of an IR occur more than once (for the evidence distribution)"""
+    cmds = [c for c in proto._commands if isinstance(c, ICmd)]
+    n_cmd = len(cmds) - len({id(c) for c in cmds})
+    lists = [c.operands for c in {id(c): c for c in cmds}.values()]
+    n_list = len(lists) - len({id(x) for x in lists})
+    ops = [o for lst in {id(x): x for x in lists}.values() for o in lst if not isinstance(o, int)]
+    n_op = len(ops) - len({id(o) for o in ops})
+    return n_cmd, n_list, n_op
 
 
 def ri_json(x):
@@ -155,23 +212,52 @@ def classify_error(e):
     return type(e).__name__
 
 
-def real_assemble(prog, reserved=()):
+def real_assemble(prog, reserved=(), share_seed=None, private=False, twice=False):
     """-> {"ok": [instr json]} | {"err": kind}, and the Subroutine (or None).
     `reserved`: (bank, idx) pairs passed as `reserved_registers=` (only when non-empty, so that a
-    tree without the parameter is still usable for everything else)"""
-    proto = to_real(prog)
+    tree without the parameter is still usable for everything else).
+    `share_seed` / `private`: see `to_real`.  `twice`: the SAME ProtoSubroutine object is assembled
+    a second time and that result is returned (the passes rewrite the IR in place, by design; what
+    must hold is that assembling it again gives the same subroutine)."""
+    proto = to_real(prog, share_seed, private)
+    if share_seed is not None:
+        real_assemble.last_sharing = sharing_of(proto)
+    kw = {}
+    if reserved:
+        kw["reserved_registers"] = [O.Register(RegisterName(b), i) for (b, i) in reserved]
     try:
-        if reserved:
-            sub = T.assemble_subroutine(
-                proto, reserved_registers=[O.Register(RegisterName(b), i) for (b, i) in reserved])
-        else:
-            sub = T.assemble_subroutine(proto)
+        sub = T.assemble_subroutine(proto, **kw)
+        if twice:
+            sub = T.assemble_subroutine(proto, **kw)
     except Exception as e:  # noqa: BLE001
         return {"err": classify_error(e)}, None
     try:
         return {"ok": [instr_json(i) for i in sub.instructions]}, sub
     except Exception as e:  # an instruction object the canonical form cannot express
         return {"err": "unrenderable:" + type(e).__name__}, None
+
+
+def duplicate_some(rng, prog):
+    """programs that build IR reuse what they built: repeat some commands later in the program and
+    reuse some bracket operands, so that `to_real(..., share_seed)` finds equal values to share"""
+    prog = [dict(c) for c in prog]
+    idx = [i for i, c in enumerate(prog) if "m" in c]
+    for _ in range(rng.choice([0, 1, 1, 2, 3])):
+        if not idx:
+            break
+        i = rng.choice(idx)
+        j = rng.randrange(i, len(prog) + 1)
+        prog.insert(j, {"m": prog[i]["m"], "a": list(prog[i]["a"]), "o": [dict(o) for o in prog[i]["o"]]})
+        idx = [k for k, c in enumerate(prog) if "m" in c]
+    brackets = [o for c in prog if "m" in c for o in c["o"] if "e" in o or "s" in o]
+    for c in prog:
+        if "m" in c and brackets:
+            for k, o in enumerate(c["o"]):
+                kind = "e" if "e" in o else "s" if "s" in o else None
+                same = [b for b in brackets if kind and kind in b]
+                if same and rng.random() < 0.3:
+                    c["o"][k] = dict(rng.choice(same))
+    return prog
 
 
 # ---------------------------------------------------------------- text rendering
